@@ -160,7 +160,7 @@ def expected_calls(script):
             out.append(Call("get", [SYS]))
         elif op == "get_many":
             out.append(Call("get_many", [SYS, (1, 3, 6, 1, 2, 1, 1, 6, 0)]))
-        elif op == "getbulk":
+        elif op in ("getbulk", "pre_iter"):
             out.append(Call("getbulk", [(1, 3, 6, 1, 2, 1, 2)], max_rep=4))
     return out
 
@@ -176,6 +176,7 @@ def run_public(case, clauses=None):
         w = drivers.SyncWorld(cfg, agent, timeout=tmo, max_repetitions=4, **extra)
         try:
             s = w.session
+            pre = s.getbulk("1.3.6.1.2.1.2") if "pre_iter" in script else None  # an iterator prepared before the session is entered
             o = drivers.call(s.__enter__)
             if case.get("lose_first"):
                 if not (o.kind == "exc" and isinstance(o.exc, (TimeoutError, BlockingIOError))):
@@ -190,6 +191,8 @@ def run_public(case, clauses=None):
                     o = drivers.call(s.get_many, [rb.oid_str(SYS), "1.3.6.1.2.1.1.6.0"])
                 elif op == "getbulk":
                     o = drivers.call(lambda: list(s.getbulk("1.3.6.1.2.1.2")))
+                elif op == "pre_iter":
+                    o = drivers.call(lambda: list(pre))
                 else:
                     o = drivers.call(s.refresh)
                 if o.kind != "ok":
@@ -202,6 +205,7 @@ def run_public(case, clauses=None):
         holder = {}
 
         async def client(s):
+            pre = s.getbulk("1.3.6.1.2.1.2") if "pre_iter" in script else None
             try:
                 await s.__aenter__()
             except (TimeoutError, BlockingIOError):
@@ -215,6 +219,8 @@ def run_public(case, clauses=None):
                     await s.get_many([rb.oid_str(SYS), "1.3.6.1.2.1.1.6.0"])
                 elif op == "getbulk":
                     [x async for x in s.getbulk("1.3.6.1.2.1.2")]
+                elif op == "pre_iter":
+                    [x async for x in pre]
                 else:
                     await s.refresh()
             holder["eid"] = s.get_engine_id()
@@ -352,6 +358,8 @@ def gen_public(tier):
             cfg = Cfg("v3", auth=a, priv=p, discover=True)
             yield {"driver": driver, "cfg": cfg.describe(), "clock": 1, "script": ["get", "get"], "lose_first": True}
             yield {"driver": driver, "cfg": cfg.describe(), "clock": 0, "script": ["get", "refresh", "get"], "ctx_other": True}
+            yield {"driver": driver, "cfg": cfg.describe(), "clock": 0, "script": ["get", "pre_iter", "get"]}
+            yield {"driver": driver, "cfg": Cfg("v3", auth=a, priv=p).describe(), "clock": 0, "script": ["pre_iter", "get"]}
             for kt in (0, 1):
                 c2 = Cfg("v3", auth=a, priv=p, discover=True, key_type=kt)
                 yield {"driver": driver, "cfg": c2.describe(), "clock": 0, "script": ["get", "get_many", "get"], "empty_eid_arg": True}
